@@ -143,7 +143,7 @@ fn part_strings(max: usize) -> Stats {
         let want = RV::Str(t.to_string());
         st.count("a/strings");
         if t.contains(['"', '\\', '/', '*']) {
-            st.distinct("nontrivial", &("a", t));
+            st.count("nontrivial-distinct");
         }
         check_value(&q, &want, "string-literal", json!({"text": t, "source": q}), st);
         // embedded between other tokens
@@ -166,7 +166,7 @@ fn part_raw(max: usize) -> Stats {
     let mut st = par_strings(&alpha, max, |w, st| {
         let src = format!("\"{}", w);
         st.count("b/raw-sources");
-        st.distinct("nontrivial", &("b", w));
+        st.count("nontrivial-distinct");
         check_against_lexer(&src, "raw-string-source", st);
     });
     st.add("b/max-length", max as u64);
@@ -183,7 +183,7 @@ fn part_ints(dense: u64) -> Stats {
                 st.count("c/int-literals");
                 check_value(&src, &RV::Int(n), "int-literal", json!({"n": n, "source": src}), &mut st);
             }
-            st.distinct("nontrivial", &("c", n));
+            st.count("nontrivial-distinct");
         }
         st
     });
@@ -219,7 +219,7 @@ fn part_ints(dense: u64) -> Stats {
                 check_value(&emb, &want, "int-literal", json!({"n": n, "source": emb}), &mut st);
             }
         }
-        st.distinct("nontrivial", &("c", n));
+        st.count("nontrivial-distinct");
     }
     st
 }
@@ -231,7 +231,7 @@ fn part_numeric_words(max: usize) -> Stats {
         st.count("d/numeric-alphabet-strings");
         if let Ok(toks) = lex(w) {
             if toks.iter().any(|t| matches!(t, LTok::Float(_))) {
-                st.distinct("nontrivial", &("d", w));
+                st.count("nontrivial-distinct");
                 st.count("d/with-float-token");
             }
             // digit strings beyond the i64 range are not claimed
@@ -334,6 +334,11 @@ fn renderings(x: f64) -> Vec<String> {
             out.push(format!("{}.0e{}", m, ex));
         }
     }
+    // long decimal expansions (far more digits than needed): the nearest double must still be x
+    out.push(format!("{:.40e}", x));
+    if x >= 1e-5 && x < 1e15 {
+        out.push(format!("{:.45}", x));
+    }
     let fixed = format!("{}", x);
     if fixed.len() <= 400 {
         if fixed.contains('.') {
@@ -347,6 +352,8 @@ fn renderings(x: f64) -> Vec<String> {
             out.push(format!("{}.0", fixed));
         }
     }
+    out.sort();
+    out.dedup();
     out
 }
 
@@ -372,7 +379,7 @@ fn part_doubles(thorough: bool) -> Stats {
                     continue;
                 }
                 st.count("d/double-renderings");
-                st.distinct("nontrivial", &("d2", lit.clone()));
+                st.count("nontrivial-distinct");
                 let inp = |s: &str| json!({"double_bits": format!("{:016x}", x.to_bits()), "literal": lit, "source": s});
                 check_value(&lit, &RV::Float(x), "float-literal", inp(&lit), &mut st);
                 let fx = RV::Float(x);
@@ -423,7 +430,7 @@ fn part_words(max: usize) -> Stats {
             _ => Leaf::Ident(w.to_string()),
         };
         if !matches!(class, WordClass::Ident) {
-            st.distinct("nontrivial", &("e", w));
+            st.count("nontrivial-distinct");
         }
         let got = match tree_of(w) {
             Err(p) => {
@@ -458,15 +465,77 @@ fn part_words(max: usize) -> Stats {
     st
 }
 
+/// Long literals: strings, identifiers, digit strings and mantissas of every size in `scale::sizes`.
+fn part_scaling(thorough: bool) -> Stats {
+    let mut st = Stats::new();
+    let hostile: Vec<char> = vec!['a', '"', '\\', '/', '*', ' ', '\n', 'ä', '😀', '=', ';', '('];
+    for n in super::scale::sizes(thorough) {
+        // strings of n characters cycling through the hostile alphabet from every starting offset
+        for off in 0..hostile.len() {
+            let t: String = (0..n).map(|i| hostile[(i + off) % hostile.len()]).collect();
+            let q = quote(&t);
+            st.count("s/long-strings");
+            st.count("nontrivial-distinct");
+            check_value(&q, &RV::Str(t.clone()), "string-literal", json!({"text": t, "source": q}), &mut st);
+            let s2 = format!("\"\"+{}+\"\"", q);
+            check_value(&s2, &RV::Str(t.clone()), "string-literal", json!({"text": t, "source": s2}), &mut st);
+        }
+        // identifiers of n characters (ASCII and not), alone and next to operators
+        for word in ["x".repeat(n), "é".repeat(n), format!("{}9", "_".repeat(n)), format!("a{}", "0".repeat(n))] {
+            st.count("s/long-identifiers");
+            for src in [word.clone(), format!("{}+{}", word, word), format!("-{}", word), format!("({},{})", word, word)] {
+                check_against_lexer(&src, "long-identifier", &mut st);
+            }
+        }
+        // digit strings: n nines is an integer up to 18 digits; beyond the range the value is not claimed
+        if n <= 18 {
+            let d = "9".repeat(n);
+            check_value(&d, &RV::Int(d.parse::<i64>().unwrap()), "int-literal", json!({"source": d}), &mut st);
+            let z = format!("{}1", "0".repeat(n));
+            check_value(&z, &RV::Int(1), "int-literal", json!({"source": z}), &mut st);
+            let h = format!("0x{}", "f".repeat(n.min(15)));
+            check_value(&h, &RV::Int(i64::from_str_radix(&"f".repeat(n.min(15)), 16).unwrap()), "int-literal", json!({"source": h}), &mut st);
+        }
+        // mantissas and exponents with n digits: the nearest double according to str::parse
+        for lit in [
+            format!("0.{}1", "0".repeat(n)),
+            format!("1.{}1", "0".repeat(n)),
+            format!("{}.5", "7".repeat(n)),
+            format!("1{}.", "0".repeat(n)),
+            format!("0.{}", "3".repeat(n)),
+            format!("1e{}", n),
+            format!("1e-{}", n),
+            format!("{}e-{}", "9".repeat(n.min(300)), n),
+            format!("0.{}e+{}", "1".repeat(n.min(300)), n.min(300)),
+            format!("1e{}1", "0".repeat(n.min(30))),
+        ] {
+            let want: f64 = match lit.parse() {
+                Ok(f) => f,
+                Err(_) => continue,
+            };
+            if !want.is_finite() {
+                continue;
+            }
+            st.count("s/long-float-literals");
+            st.count("nontrivial-distinct");
+            check_value(&lit, &RV::Float(want), "float-literal", json!({"source": lit}), &mut st);
+            let emb = format!("{}-{}", lit, lit);
+            check_value(&emb, &RV::Float(want - want), "float-literal-embedded", json!({"source": emb}), &mut st);
+        }
+    }
+    st
+}
+
 pub fn run(cfg: &Cfg) -> Report {
     let t = cfg.tier;
     let mut stats = Stats::new();
-    stats.merge(part_strings(t.pick(4, 5)));
-    stats.merge(part_raw(t.pick(6, 8)));
+    stats.merge(part_strings(t.pick(4, 6)));
+    stats.merge(part_raw(t.pick(6, 9)));
     stats.merge(part_ints(t.pick(1 << 14, 1 << 17)));
-    stats.merge(part_numeric_words(t.pick(6, 7)));
+    stats.merge(part_numeric_words(t.pick(6, 8)));
     stats.merge(part_doubles(t == Tier::Thorough));
-    stats.merge(part_words(t.pick(3, 4)));
+    stats.merge(part_words(t.pick(3, 5)));
+    stats.merge(part_scaling(t == Tier::Thorough));
     // longer float spellings that are known findings are reported through the same matcher
     for w in ["infinity", "Infinity", "INFINITY", "NaN", "Inf"] {
         let mut st = Stats::new();
@@ -500,8 +569,8 @@ pub fn run(cfg: &Cfg) -> Report {
     Report {
         property: ID,
         level: "exploration",
-        rule: format!("(a) every text of length <= {} over a 16-character hostile alphabet, quoted by the reference escaper, alone and in 4 embeddings; (b) every raw source `\"`+w, |w| <= {} over {{\" \\ a n / *}}; (c) every integer below {} in decimal, hex (both digit cases) and with leading zeros, plus 2^k+d and 10^k+d (|d| <= 2) with embeddings; (d) every string of length <= {} over `0 1 5 9 . e + - x` (token streams) and a pool of doubles (powers of two and ten with neighbours, subnormals, rounding-hard cases) x up to 9 renderings x 12 embeddings; (e) every word of length <= {} over a 21-character alphabet. Oracle: reference lexer/classifier + str::parse. Non-trivial: strings containing quote/backslash/comment characters, raw sources, integers, strings with a float token, float renderings, words classified as literals; distinct by text", t.pick(4, 5), t.pick(6, 8), t.pick(1u64 << 14, 1 << 17), t.pick(6, 7), t.pick(3, 4)),
-        nontrivial_set: "nontrivial",
+        rule: format!("(a) every text of length <= {} over a 16-character hostile alphabet, quoted by the reference escaper, alone and in 4 embeddings; (b) every raw source `\"`+w, |w| <= {} over {{\" \\ a n / *}}; (c) every integer below {} in decimal, hex (both digit cases) and with leading zeros, plus 2^k+d and 10^k+d (|d| <= 2) with embeddings; (d) every string of length <= {} over `0 1 5 9 . e + - x` (token streams) and a pool of doubles (powers of two and ten with neighbours, subnormals, rounding-hard cases) x up to 9 renderings x 12 embeddings; (e) every word of length <= {} over a 21-character alphabet; (f) scaling families: strings, identifiers, digit strings, mantissas and exponents of n characters for n in 1..20 and up to 129 / 1..40 and up to 400. Oracle: reference lexer/classifier + str::parse. Non-trivial: strings containing quote/backslash/comment characters, raw sources, integers, strings with a float token, float renderings, words classified as literals; every text is enumerated once per part", t.pick(4, 6), t.pick(6, 9), t.pick(1u64 << 14, 1 << 17), t.pick(6, 8), t.pick(3, 5)),
+        nontrivial_set: "counter:nontrivial-distinct",
         exhaustive: true,
         bound_completed: "all listed alphabets to the stated lengths".into(),
         assumptions: vec![
